@@ -281,6 +281,26 @@ Definition tandems_ok (g : dgene) : bool := forallb (fun t => negb (str_eqb (fst
 Definition names_ok (sol : list allele) : bool :=
   forallb (fun a => match chop (a_major a) with [] => false | _ => true end) sol.
 
+(* ------------------------------------------------------------------ vocabulary of the statements in props/C11.v *)
+Definition uflats (us : list unit_) : list Z := concat (map uflat us).
+Fixpoint zrange (i : Z) (n : nat) : list Z := match n with O => [] | S m => i :: zrange (i + 1) m end.
+(* number of deletion placeholders: max(0, 2 - n) when the gene has a deletion allele *)
+Definition ndel (g : dgene) (n : nat) : nat := match has_del g with None => O | Some _ => (2 - n)%nat end.
+(* the group a copy belongs to: the allele number of its major name *)
+Definition key_of (sol : list allele) (i : Z) : option str :=
+  if i <? 0 then None
+  else match nth_error sol (Z.to_nat i) with Some a => real (chop (a_major a)) | None => None end.
+Definition isU1 (u : unit_) : Prop := match u with U1 _ => True | U2 _ _ => False end.
+(* natural order of two units: by the name of their (first) copy *)
+Definition unit_le (name : Z -> str) (a b : unit_) : Prop := name_leb (name (uhead a)) (name (uhead b)) = true.
+(* the name shown for a called copy: fusion suffix removed, "+rsid" of every functional added variant appended *)
+Definition spec_name (g : dgene) (sol : list allele) (i : Z) : str :=
+  if i =? -1 then del_name g
+  else match nth_error sol (Z.to_nat i) with
+       | Some a => chop (a_major a) ++ concat (map (fun v => s "+" ++ rsid v) (filter is_func (sort_vars (a_added a))))
+       | None => []
+       end.
+
 (* ------------------------------------------------------------------ encoders *)
 Definition o_derr (e : derr) : out := OZ (match e with EIndex => 1 | EAssert => 2 | EType => 3 end).
 Definition o_dres {A} (f : A -> out) (r : dres A) : out :=
